@@ -29,6 +29,8 @@ Definition dg_highc (limit : N) : N := (N.max 4 (limit / 16)).
 Definition dg_lowc (limit : N) : N := ((dg_highc limit) / 2).
 Definition dg_feed_pause (size high : N) : bool := (high <? size).
 Definition dg_chunk_pause (nsplits highc : N) : bool := (highc <? nsplits).
+(* `not self._eof and` present in the resume test *)
+Definition dg_resume_not_eof : bool := true.
 Definition dg_resume_size (size low : N) : bool := (size <? low).
 (* `or not self._buffer` present in the resume test *)
 Definition dg_resume_when_empty : bool := true.
